@@ -473,7 +473,7 @@ def finish(ctx, level="model_checking"):
 
 
 # ------------------------------------------------------------------ behaviours generated by TLC, replayed into the code
-def gen_replay(ctx, tag, gen_module, defs, consts, depth, num, to_line, exe, scope_args, trace_module, tconsts, props, tdefs=None):
+def gen_replay(ctx, tag, gen_module, defs, consts, depth, num, to_line, exe, scope_args, trace_module, tconsts, props, tdefs=None, per_walk=6):
     """Simulate the model with a history variable, print each behaviour as JSON (Emit constraint), turn every
     behaviour into an op script for the driver's replay mode, and validate the recorded trace (L1 + L2)."""
     cfg = ("CONSTANTS\n" + consts + f"\n  GenDepth = {depth}\nSPECIFICATION GSpec\nCONSTRAINT Emit\nCONSTRAINT Bound\nCHECK_DEADLOCK FALSE\n")
@@ -488,6 +488,15 @@ def gen_replay(ctx, tag, gen_module, defs, consts, depth, num, to_line, exe, sco
             pass
     if not behaviours:
         raise HarnessError(f"TLC produced no behaviours for {tag}: {r.out[-1500:]}")
+    # the simulator evaluates the constraint on every successor of the last state of a walk, so one walk comes
+    # out as many behaviours differing in their final operation only: keep a few per walk
+    seen, kept = {}, []
+    for b in behaviours:
+        k = json.dumps(b[:-1], sort_keys=True)
+        seen[k] = seen.get(k, 0) + 1
+        if seen[k] <= per_walk:
+            kept.append(b)
+    behaviours = kept
     script = ctx.work / f"{tag}.ops"
     with open(script, "w") as f:
         for b in behaviours:
